@@ -331,6 +331,28 @@ def ir_mirror_row(src):
                        'every return is None or a tuple tagged with the node kind; chains become (reduce|scan, op, IR(arg))')
 
 
+def call_guard(src):
+    """(established, calls, guarded, guard text): every call of compiled code `fn(*args)` in the interpreter sits under
+    `if self._compiled_for(args)`, and _compiled_for admits exactly int, float and ndarray.  When this is established, compiled code never
+    runs on a kind it was not admitted for - whatever the compile-time admission test and whatever stays in the caches - so the
+    compile-time mechanisms (admission by exact type, cache cleared on rebinding, Define through __setitem__) are no longer NEEDED for the
+    property and their obligations are discharged by it; when it is not established they are required as before."""
+    t_ = src.tree('klongpy/interpreter.py')
+    calls, guarded = 0, 0
+    is_call = lambda c: isinstance(c, ast.Call) and isinstance(c.func, ast.Name) and c.func.id == 'fn' and any(isinstance(a, ast.Starred) for a in c.args)
+    for node in ast.walk(t_):
+        if isinstance(node, ast.If) and ast.unparse(node.test) == 'self._compiled_for(args)':
+            guarded += sum(1 for b in node.body for c in ast.walk(b) if is_call(c))
+        if is_call(node):
+            calls += 1
+    guard = src.find('klongpy/interpreter.py::KlongInterpreter._compiled_for')
+    gtxt = ast.unparse(guard.body[-1]) if guard is not None else None
+    want = 'return all((type(a) is int or type(a) is float or isinstance(a, nd) for a in args))'
+    nd_ok = guard is not None and any(isinstance(s, ast.Assign) and ast.unparse(s) == 'nd = self._backend.np.ndarray' for s in guard.body) and \
+        sum(1 for s in guard.body if not (isinstance(s, ast.Expr) and isinstance(s.value, ast.Constant))) == 2
+    return (calls >= 3 and guarded == calls and gtxt == want and nd_ok), calls, guarded, gtxt
+
+
 def admission_row(src):
     name = f"{CO}::_ast_to_ir#admits-scalars-by-exact-type"
     fn = src.find(f"{CO}::_ast_to_ir")
@@ -364,6 +386,11 @@ def admission_row(src):
                 bad.append(txt)
     if not guards:
         return dict(name=name, ok=False, undecided=True, backend='ast-structural', detail="no guard of a ('var', ...) return found")
+    if bad and call_guard(src)[0]:
+        return dict(name=name, ok=True, backend='ast-structural', prod='admission',
+                    detail=f"variables are admitted at compile time under {bad}, wider than the exact-type test; discharged by the call-time "
+                           f"guard (KlongInterpreter.eval#compiled-code-called-only-on-admitted-kinds): compiled code is only CALLED on exact "
+                           f"int / float / ndarray values, every other value goes through the interpreter")
     return dict(name=name, ok=not bad, backend='ast-structural', prod='admission',
                 detail=(f"variable admitted under {bad}: not an exact-type test (type(v) is int / is float) nor an ndarray test - subclasses such as "
                         f"numpy.float64 or bool would be compiled, and they do not raise on division by zero") if bad
